@@ -47,11 +47,19 @@ class _:
     rely = {
         # while stop() is cancelling things, nothing else ends the run or clears the stopping flag (a nested stop() returns)
         "stopping-is-exclusive": "implies(old(self._stopping), self._stopping and self._start_d == old(self._start_d))",
+        # timers fire from the reactor only; code running during an excursion either leaves a pending timer alone or clears the field
+        "retry-timer-stays-pending": "implies(old(self._stopping) and old(self._retry_call is None or active(self._retry_call)), "
+                                     "self._retry_call is None or active(self._retry_call))",
+        "no-new-request-while-stopping": "implies(old(self._stopping) and old(self._request_d is None), self._request_d is None)",
+        "commit-timer-stays-pending": "implies(old(self._stopping) and old(self._commit_call is None or active(self._commit_call)), "
+                                      "self._commit_call is None or active(self._commit_call))",
     }
     invariant = {
         # C13: timers referenced by the consumer are pending ones (a fired / cancelled timer is not kept)
-        "retry-live": "self._start_d is None or self._retry_call is None or active(self._retry_call)",
+        "retry-live": "self._start_d is None or self._stopping or self._retry_call is None or active(self._retry_call)",
+        "commit-call-live": "self._start_d is None or self._stopping or self._commit_call is None or active(self._commit_call)",
         "stopping-implies-started": "not self._stopping or self._start_d is not None",
+        "timers-apart": "self._retry_call is None or self._commit_call is None or self._retry_call != self._commit_call",
         "idle-when-stopped": "self._start_d is not None or self._request_d is None",
         "roles-apart": "(self._msg_block_d is None or ((self._start_d is None or self._start_d != self._msg_block_d) and "
                        "(self._shutdown_d is None or self._shutdown_d != self._msg_block_d)))",
@@ -95,14 +103,15 @@ method("_retry_fetch", "(%s, after: Optional[float] = None) -> None" % SELF,
 
 method("_do_fetch", "(%s) -> None" % SELF, props=["C02", "C14"],
        modifies=FETCH_FRAME, inv_exempt_at_entry=["retry-live"],
-       requires=["self._start_d is not None", "self._fetch_offset is not None",
+       requires=["self._start_d is not None", "self._fetch_offset is not None", "not self._stopping",
                  "self._request_d is None or self._retry_call is None or active(self._retry_call)",
                  "self._fetch_offset != -101 or self.consumer_group"],
        ensures={"one-request[C02]": "implies(old(self._request_d) is not None, n_events('FetchRequest') + n_events('OffsetRequest') "
                                     "+ n_events('OffsetFetchRequest') == 0)"})
 
 method("_handle_offset_response", "(%s, responses: List[OffsetFetchResponse]) -> None" % SELF, props=["C14", "C03"],
-       requires=["len(responses) == 1", "self._start_d is not None", "responses[0].offset >= -1", "self.consumer_group"],
+       requires=["len(responses) == 1", "self._start_d is not None", "responses[0].offset >= -1", "self.consumer_group",
+                 "not self._stopping"],
        checkpoints={"call:_do_fetch#1": {
            "delay-reset[C14]": "self.retry_delay == self.retry_init_delay and self._fetch_attempt_count == 1",
            "resume-after-committed[C03]": "implies(responses[0].offset != -1, self._fetch_offset == responses[0].offset + 1 "
@@ -154,6 +163,7 @@ method("_auto_commit", "(%s, by_count: bool = False) -> None" % SELF, props=["C0
        inline_only=True)
 
 method("_send_commit_request", "(%s, retry_delay: Optional[float] = None, attempt: Optional[int] = None) -> None" % SELF, props=["C03"],
+       inv_exempt_at_entry=["commit-call-live"],
        requires=["self._last_processed_offset is not None", "self.consumer_group is not None"],
        ensures={"one-request-with-current-offset[C03]":
                 "n_events('CommitRequest') == 1 and event_arg('CommitRequest', 0, 1)[0].offset == old(self._last_processed_offset) "
@@ -212,6 +222,21 @@ method("_handle_fetch_response", "(%s, responses: List[FetchResponse]) -> None" 
 # when executed symbolically.  It is covered by the bounded scenario stand-in (specs/scenarios.py) instead; its
 # re-entrancy guard is what the rely clause "stopping-is-exclusive" records, and every other entry point proves the
 # matching guarantee.
+method("stop", "(%s) -> Optional[int]" % SELF, props=["C13"], no_guarantee=True,
+       requires=["not self._stopping"],
+       # cut after every guarded cancellation (see pyvc/units.cut_segment): what survives an excursion while stopping
+       cut_points=dict(inv=["self._stopping", "self._start_d is not None", "self._start_d == old(self._start_d)"],
+                       # timers fire from the reactor only, never during an excursion: until stop() cancels them they stay pending
+                       inv_until={"retry-timer-pending": ("self._retry_call is None or active(self._retry_call)", "self._retry_call"),
+                                  "commit-timer-pending": ("self._commit_call is None or active(self._commit_call)", "self._commit_call")},
+                       inv_from={"no-request": ("self._request_d is None", "self._request_d")}),
+       loops={"while#1": dict(index="n", inv=["self._stopping", "self._start_d is not None", "self._start_d == old(self._start_d)",
+                                               "self._commit_call is None or active(self._commit_call)", "self._request_d is None"])},
+       checkpoints={"fire:callback#1": {"stopped-before-notifying[C13]": "self._start_d is None and not self._stopping and self._request_d is None"}},
+       ensures={"start-deferred-fired-once[C13]": "called(old(self._start_d))",
+                "returns-last-processed[C13]": "result == self._last_processed_offset"},
+       raises={"RestopError[C13]": "iff:self._start_d is None"})
+
 method("start", "(%s, start_offset: int) -> Ref_Deferred" % SELF, props=["C13"],
        requires=["start_offset != -101 or self.consumer_group"],     # documented: OFFSET_COMMITTED needs a consumer group
        raises={"RestartError[C13]": "iff:self._start_d is not None"},
